@@ -193,11 +193,13 @@ class Minimiser:
                     cur = _get(self.best, path)
                 except (KeyError, IndexError, TypeError):
                     continue
+                if path and path[0] == "knobs":
+                    continue  # tuning knobs have their own legal values
                 items = cur.items() if isinstance(cur, dict) else enumerate(cur)
                 for k, v in list(items):
                     if isinstance(v, bool) or not isinstance(v, int):
                         continue
-                    if k in ("seed",):
+                    if k in ("seed", "knobs") or (not path and k in ("pick", "perm_seed")):
                         continue
                     for nv in (0, 1, v // 2):
                         if abs(nv) < abs(v):
